@@ -153,7 +153,59 @@ def failing(levels, limit) -> str | None:
     return None
 
 
+RAGGED_INNER = {
+    "for": "{% for c in row %}x{% endfor %}", "tablerow": "{% tablerow c in row %}x{% endtablerow %}", "include_for": "{% include 'cell' for row %}", "render_for": "{% render 'cell' for row %}",
+    "for-in-include": "{% include 'inner' %}", "for-in-render": "{% render 'inner', row: row %}", "for-range": "{% for c in (1..row.size) %}x{% endfor %}", "for-limit": "{% for c in widest limit: row.size %}x{% endfor %}",
+    "for-in-if": "{% if true %}{% for c in row %}x{% endfor %}{% endif %}", "for-in-macro": "{% call m row %}",
+}
+RAGGED_OUTER = {"for": ("{% for row in rows %}", "{% endfor %}"), "tablerow": ("{% tablerow row in rows %}", "{% endtablerow %}"), "for-for": ("{% for o in (1..2) %}{% for row in rows %}", "{% endfor %}{% endfor %}")}
+RAGGED_PARTIALS = {"cell": "x", "inner": "{% for c in row %}x{% endfor %}"}
+
+
+def judge_ragged(ctx: core.Ctx, case: dict[str, Any]) -> None:
+    """The inner construct's length differs from one iteration of the outer one to the next: every entry is checked with the length it has then."""
+    rows, limit = case["rows"], case["limit"]
+    a, b = RAGGED_OUTER[case["outer"]]
+    src = "{% macro m row %}{% for c in row %}x{% endfor %}{% endmacro %}" + a + RAGGED_INNER[case["inner"]] + b
+    mult = 2 if case["outer"] == "for-for" else 1
+    env = drv.make_env({"extra": True, "limits": {"loop_iteration_limit": limit}}, loader=DictLoader(dict(RAGGED_PARTIALS)), base=MonEnv)
+    HOOK["n"] = 0
+    o = drv.parse_and_render(env, src, {"rows": rows, "widest": list(range(max([len(r) for r in rows] + [0])))}, use_async=case.get("async", False))
+    ctx.count("limit_checks_observed", HOOK["n"])
+    ctx.count("ragged_cases")
+    outer_len = len(rows) * mult
+    must_raise = outer_len > limit or any(outer_len * len(r) > limit for r in rows) or (mult == 2 and 2 > limit)
+    total = sum(len(r) for r in rows) * mult
+    ctx.count("must_raise_cases" if must_raise else "must_complete_cases")
+    ctx.evaluations += 1
+    if must_raise and o.ok:
+        ctx.violation(f"completed-over-limit:ragged:{case['outer']}->{case['inner']}", f"limit {limit}: {src!r:.200} over rows of lengths {[len(r) for r in rows]} completed with {o.value.count('x')} innermost executions although {outer_len} x {max(len(r) for r in rows)} exceeds the limit")
+        return
+    if must_raise and o.err_class != "LoopIterationLimitError":
+        ctx.violation(f"raised-{o.err_class}:ragged", f"limit {limit}: {src!r:.200} raised {o.err_class} instead of LoopIterationLimitError")
+        return
+    if not must_raise and (not o.ok or o.value.count("x") != total):
+        ctx.violation("under-limit-differs:ragged", f"limit {limit}: {src!r:.200} over rows of lengths {[len(r) for r in rows]} gave {o.brief()!r:.120}, expected {total} markers")
+        return
+    ctx.ok((src, [len(r) for r in rows], limit), nontrivial=True)
+
+
+def ragged_cases():
+    shapes = [[1, 12], [12, 1], [0, 5, 0], [1, 2, 3, 4], [4, 3, 2, 1], [2, 2, 9], [1, 1, 1, 7, 1], [3], [0], [6, 0, 6], [1, 5, 2, 8]]
+    for lens in shapes:
+        rows = [[0] * n for n in lens]
+        for outer in RAGGED_OUTER:
+            for inner in RAGGED_INNER:
+                mult = 2 if outer == "for-for" else 1
+                worst = len(lens) * mult * max(lens)
+                for limit in sorted({max(worst - 1, 1), max(worst, 1), worst + 1, max(len(lens) * mult * min(lens), 1), max(len(lens) * mult, 1), 200}):
+                    yield {"kind": "ragged", "rows": rows, "outer": outer, "inner": inner, "limit": limit, "async": (len(lens) + limit) % 4 == 0}
+
+
 def judge(ctx: core.Ctx, case: dict[str, Any]) -> None:
+    if case.get("kind") == "ragged":
+        judge_ragged(ctx, case)
+        return
     levels = case["levels"]
     limit = case["limit"]
     must_raise, total = expectation(levels, limit)
@@ -268,6 +320,13 @@ def sibling_cases(ctx: core.Ctx, rng):
 
 
 def cases(ctx: core.Ctx):
+    for gi, c in enumerate(ragged_cases()):
+        if gi % ctx.nshards == ctx.shard:
+            yield c
+    yield from _cases(ctx)
+
+
+def _cases(ctx: core.Ctx):
     rng = ctx.rng("cases")
     # first, so that the time cap of the thorough tier (spent mostly on the exhaustive enumeration) cannot starve them
     yield from sibling_cases(ctx, ctx.rng("siblings"))
